@@ -59,3 +59,13 @@ Definition tr_unschedule_unstarted : list label :=
   [LCall 0%N (CSchedule 1%N 2%N); LStep A0; LStep A0; LStep A0;
    LCall 0%N (CUnschedule 2%N); LStep A0; LStep A0; LStep A0; LStep A0; LStep A0;
    LCall 0%N CStart; LStep A0; LOrd A0 []; LStep A0; LStep A0; LStep A0].
+
+(* schedule, start, the emitter puts 7; unschedule(w) stops and joins it and returns; the watch is scheduled
+   again: a NEW emitter (1) is created and puts 8 after that Return. *)
+Definition tr_put_after_unschedule_return : list label :=
+  [LCall 0%N (CSchedule 1%N 2%N); LStep A0; LStep A0; LStep A0;
+   LCall 0%N CStart; LStep A0; LOrd A0 [0%nat]; LStep A0; LStep A0; LStep A0; LStep A0; LStep A0; LStep A0;
+   LECheck 0%nat; LEPut 0%nat 7%N;
+   LCall 0%N (CUnschedule 2%N); LStep A0; LStep A0; LECheck 0%nat; LEExit 0%nat; LStep A0; LStep A0; LStep A0;
+   LCall 0%N (CSchedule 1%N 2%N); LStep A0; LStep A0; LStep A0; LStep A0; LStep A0;
+   LECheck 1%nat; LEPut 1%nat 8%N].
